@@ -22,8 +22,8 @@ def add_failure(out, kind, what, inp, expected, got, confirmed=True, sig=None, *
     _add_failure(out, kind, what, inp, expected, got, confirmed=confirmed, sig=sig, **kw)
 
 PROP = "C07"
-PROPS_FILES = ["CogentModel/Props/C07.lean"]
-LEAN_TARGETS = ["CogentModel.Props.C07"]
+PROPS_FILES = ["CogentModel/Props/C07.lean", "CogentModel/Props/C07Lf.lean"]
+LEAN_TARGETS = ["CogentModel.Props.C07", "CogentModel.Props.C07Lf"]
 DRIVER = "drv_c07"
 TRUSTED = [
     "hand-written model lean/CogentModel/Model/Calculator.lean of recalculation.calculation.Calculator "
@@ -188,6 +188,9 @@ def correspondence(ctx):
             add_failure(out, "corr", "cells_changed_by differs from model program", rq, mod, real, confirmed=False)
     _corr_ctl(ctx, out)
     _corr_rules(ctx, out)
+    from . import c07_lfops
+
+    c07_lfops.corr_lf_ops(ctx, out)
     return out
 
 
